@@ -218,6 +218,19 @@ func (x *Exec) callStatic(fr *Frame, st *State, fn *ssa.Function, args, bind []*
 		}
 	}
 	r := x.callStatic0(fr, st, fn, args, bind, resT, pos)
+	if x.afterNames != nil {
+		gb, gi := genericNames(fn)
+		for _, k := range []string{fn.String(), funcDisplayName(fn), fn.Name(), gb, gi} {
+			if k != "" && x.afterNames[k] {
+				snap := st.clone()
+				snap.snaps = nil
+				if st.snaps == nil {
+					st.snaps = map[string]*State{}
+				}
+				st.snaps[k] = snap
+			}
+		}
+	}
 	// ghost: remember the results of tracked callees (ret(F, k) in contracts)
 	if r != nil && x.retCells != nil {
 		name := fn.String()
@@ -634,6 +647,10 @@ func (x *Exec) checkEnsures(fr *Frame, st *State, vals []*Value, pos token.Pos) 
 	res := tupleOf(vals, fr.fn.Signature.Results())
 	x.bindResults(c, fr.fn, extra, res, fr.fn.Signature)
 	for _, e := range c.Ensures {
+		if e.Defining {
+			x.trusted["definition: "+c.Name+" is a deterministic function of the contents of its arguments, named by: "+e.Src] = true
+			continue
+		}
 		t := x.evalClause(fr, e, st, fr.entry, extra)
 		x.oblige(fr, st, "ensures", "", e.Label, t, pos, e.Src)
 	}
@@ -673,6 +690,10 @@ func (x *Exec) checkFrame(fr *Frame, st *State, pos token.Pos) {
 		r := BoundVar("r", RefSort)
 		var exempt []*Term
 		exempt = append(exempt, Gt(x.ctx.App("allocId", IntSort, r), IntLit(0)))
+		if x.jsonFreshUsed {
+			// containers allocated by encoding/json during this call (assumed decoding law)
+			exempt = append(exempt, x.ctx.App("jsonFresh", BoolSort, r))
+		}
 		for _, a := range allowed[k] {
 			exempt = append(exempt, Eq(r, a))
 		}
@@ -953,7 +974,7 @@ func exprUsesGhost(e *Expr) bool {
 	if e == nil {
 		return false
 	}
-	if e.Op == "call" && e.Args[0].Op == "ident" && (e.Args[0].Name == "called" || e.Args[0].Name == "ret" || e.Args[0].Name == "arg") {
+	if e.Op == "call" && e.Args[0].Op == "ident" && (e.Args[0].Name == "called" || e.Args[0].Name == "ret" || e.Args[0].Name == "arg" || e.Args[0].Name == "after") {
 		return true
 	}
 	for _, a := range e.Args {
